@@ -284,6 +284,10 @@ class IndicatorResourceCost(Indicator):
         # TODO: what if we multiply the line below by 2? This would remove a division
         # by 2, and make the cost computation linear if costs are linear
         expression = z3.Sum(constant_costs) + z3.Sum(variable_costs) / 2
+        if z3.is_real(expression):
+            # non integer cost coefficients: the indicator is an integer, the cost is
+            # rounded down (otherwise any schedule with a fractional cost is forbidden)
+            expression = z3.ToInt(expression)
         self.append_z3_assertion(self._indicator_variable == expression)
 
 
